@@ -19,10 +19,15 @@ pub enum Ctx {
 
 thread_local! {
     pub static MEASURE_CALLS: Cell<u64> = Cell::new(0);
+    /// the measure function panics once it has been called more often than this (lets counting oracles stop runaway passes)
+    pub static MEASURE_LIMIT: Cell<u64> = Cell::new(u64::MAX);
 }
 
 pub fn measure(known: Size<Option<f32>>, avail: Size<AvailableSpace>, ctx: Option<&mut Ctx>) -> Size<f32> {
     MEASURE_CALLS.with(|c| c.set(c.get() + 1));
+    if MEASURE_CALLS.with(|c| c.get()) > MEASURE_LIMIT.with(|c| c.get()) {
+        panic!("measure limit exceeded");
+    }
     if let (Some(w), Some(h)) = (known.width, known.height) {
         return Size { width: w, height: h };
     }
